@@ -123,7 +123,7 @@ Proof.
             try (apply IHr; exact H).
           destruct (join_ext oe' sf) as [sf'| |] eqn:J; try discriminate. cbn [bind] in H.
           eapply incl_tran; [apply (G (VScope (Ext n' sf')))|apply IHr; exact H].
-        * destruct ov; try discriminate. eapply incl_tran; [apply G|apply IHr; exact H].
+        * destruct ov; try discriminate; [apply IHr; exact H|]. eapply incl_tran; [apply G|apply IHr; exact H].
       + eapply incl_tran; [apply (G ov)|apply IHr; exact H]. }
   exact (P (VScope oe)).
 Qed.
